@@ -591,3 +591,9 @@ Lemma shipped_order d :
       nth_error (trace_regions spec_patterns d) k = Some (p ++ rest) /\
       p ++ rest = firstn (nth (S k) offs (length d) - o) (skipn o d).
 Proof. apply regions_order, spec_patterns_shape. Qed.
+
+Theorem dump_file_fast_eq ptes strs lines : dump_file_fast ptes strs lines = parse_dump_file ptes strs lines.
+Proof.
+  unfold dump_file_fast, parse_dump_file, parse_dump. destruct (first_nonempty _ _); [reflexivity|].
+  apply dump_fast_eq.
+Qed.
